@@ -16,7 +16,9 @@
 //! Oracle (C02): every call returns (per-call watchdog in the worker), none panics; a caller buffer that is
 //! smaller than the sum of the arrays carved from it (need − alignment slack) never yields Ok for
 //! FreeType-style glyf draws (R1, "documented misuse is an error"); a buffer of `draw_memory_size` bytes at
-//! any alignment is never rejected as InsufficientMemory unless the same draw without caller memory is (R2).
+//! any alignment is never rejected as InsufficientMemory unless the same draw without caller memory is (R2);
+//! on unmodified corpus fonts a draw without caller memory never reports InsufficientMemory (R3); a hinted
+//! draw with PathStyle::HarfBuzz is the documented error HarfBuzzHintingUnsupported, never Ok (R4).
 
 use crate::sup::{mark, tick, CaseOut, Viol};
 use read_fonts::{FontRef, TableProvider};
@@ -186,9 +188,6 @@ impl RecPainter {
     fn ev(&mut self, tag: u8) {
         self.h.byte(tag);
         self.n += 1;
-        if self.n & 0xFFF == 0 {
-            tick(); // a long but progressing traversal is not a stall; its size is bounded by `PAINT_HORIZON`
-        }
     }
     fn brush(&mut self, b: &Brush) {
         match b {
@@ -299,6 +298,8 @@ pub struct Plan {
     pub mem_targets: Vec<Target>,
     pub metadata: bool,
     pub colour: bool,
+    /// the font is an unmodified corpus font (enables rule R3)
+    pub pristine: bool,
 }
 
 pub fn all_targets() -> Vec<Target> {
@@ -354,6 +355,7 @@ impl Plan {
                 mem_targets: vec![Target::Mono, Target::default()],
                 metadata: true,
                 colour: true,
+                pristine: false,
             },
             "reduced" => Plan {
                 name: "reduced",
@@ -376,6 +378,7 @@ impl Plan {
                 mem_targets: vec![Target::default()],
                 metadata: true,
                 colour: true,
+                pristine: false,
             },
             "min" => Plan {
                 name: "min",
@@ -392,6 +395,43 @@ impl Plan {
                 mem_targets: vec![Target::Mono],
                 metadata: true,
                 colour: true,
+                pristine: false,
+            },
+            // deviations of tables that only feed metadata queries (name, post, OS/2, CPAL) in the quick tier
+            "meta" => Plan {
+                name: "meta",
+                all_gids_below: 4,
+                sizes: vec![None, Some(13.5), Some(f32::NAN)],
+                coord_kinds: vec![0, 2],
+                engines: vec![],
+                targets: vec![],
+                pedantic: vec![],
+                styles: vec![PathStyle::FreeType],
+                mem_aligns: vec![],
+                mem_sizes: vec![],
+                mem_coord_kinds: vec![],
+                mem_targets: vec![],
+                metadata: true,
+                colour: true,
+                pristine: false,
+            },
+            // for c20 (strict profile): sizes that drive scaling arithmetic to its limits
+            "strict" => Plan {
+                name: "strict",
+                all_gids_below: 8,
+                sizes: vec![None, Some(1.0), Some(13.5), Some(65535.0), Some(1e9)],
+                coord_kinds: vec![0, 2, 3, 6, 7],
+                engines: vec![0, 1],
+                targets: vec![Target::Mono, Target::default(), smooth(SmoothMode::Light, true, false)],
+                pedantic: vec![false, true],
+                styles: vec![PathStyle::FreeType, PathStyle::HarfBuzz],
+                mem_aligns: vec![1],
+                mem_sizes: vec![Some(13.5)],
+                mem_coord_kinds: vec![0],
+                mem_targets: vec![Target::default()],
+                metadata: true,
+                colour: true,
+                pristine: false,
             },
             _ => return None,
         })
@@ -474,7 +514,6 @@ fn draw_err_class(e: &DrawError) -> (&'static str, u8) {
     }
 }
 
-const PAINT_HORIZON_NOTE: &str = "paint traversals are bounded by the library's own depth limit (64) and cycle guard";
 
 // ---------------------------------------------------------------------------------------------
 // the driver
@@ -538,7 +577,6 @@ pub fn run(data: &[u8], plan: &Plan) -> CaseOut {
             None => {}
         }
     }
-    let _ = PAINT_HORIZON_NOTE;
     acc.finish()
 }
 
@@ -932,6 +970,7 @@ fn outlines(acc: &mut Acc, font: &FontRef, plan: &Plan, gids: &[u32], coordsets:
                         DrawSettings::unhinted(size, LocationRef::new(coords)).with_path_style(style),
                         ctx,
                     );
+                    check_internal_memory(acc, ST_DRAW_U, &base, plan.pristine);
                     if !mem_here || !is_glyf {
                         continue;
                     }
@@ -1034,6 +1073,7 @@ fn outlines(acc: &mut Acc, font: &FontRef, plan: &Plan, gids: &[u32], coordsets:
                                 DrawSettings::hinted(instance, ped),
                                 ctx + ped as u64,
                             );
+                            check_internal_memory(acc, ST_DRAW_H[e as usize], &base, plan.pristine);
                             if !mem_here {
                                 continue;
                             }
@@ -1058,17 +1098,45 @@ fn outlines(acc: &mut Acc, font: &FontRef, plan: &Plan, gids: &[u32], coordsets:
                             }
                         }
                         if plan.styles.iter().any(|s| matches!(s, PathStyle::HarfBuzz)) {
-                            draw_once(
+                            let r = draw_once(
                                 acc,
                                 ST_DRAW_H[e as usize],
                                 gl,
                                 DrawSettings::hinted(instance, false).with_path_style(PathStyle::HarfBuzz),
                                 ctx + 8,
                             );
+                            // R4: hinted HarfBuzz-style drawing is documented as unsupported
+                            // (DrawError::HarfBuzzHintingUnsupported: "Error rather than silently returning unhinted")
+                            if matches!(r, Some(Ok(_))) {
+                                acc.viol(
+                                    "ok-instead-of-error",
+                                    ST_DRAW_H[e as usize],
+                                    "hinted draw with PathStyle::HarfBuzz returned Ok instead of HarfBuzzHintingUnsupported".into(),
+                                    None,
+                                );
+                            }
                         }
                     }
                 }
             }
+        }
+    }
+}
+
+/// R3: when the caller supplies no buffer "any necessary memory will be allocated internally"
+/// (DrawSettings::with_memory docs), so on an unmodified, well-formed corpus font InsufficientMemory from such
+/// a draw means the internal size computation and the carve-up disagree. Only judged for pristine seeds:
+/// on hostile bytes the error is a legitimate way to refuse inconsistent point counts.
+fn check_internal_memory(acc: &mut Acc, stage: usize, r: &Option<Result<u64, DrawError>>, pristine: bool) {
+    if matches!(r, Some(Err(DrawError::InsufficientMemory))) {
+        acc.count("internal_memory_insufficient");
+        if pristine {
+            acc.viol(
+                "internal-memory-insufficient",
+                stage,
+                "draw without caller memory returned InsufficientMemory on an unmodified corpus font".into(),
+                None,
+            );
         }
     }
 }
